@@ -25,4 +25,37 @@ CHECKS = {
         "design_ref": "DESIGN.md section 4, C01",
         "min_obs": {"bytes_compared": 100000, "segments": 100},
     },
+    "C02": {
+        "scenarios": [("C02-udp", "vsim")],
+        "rule": "fault plans over the decoded datagrams of real sessions: positional (one or two scripted rules: drop xN / duplicate / "
+                "delay of the open request, open response, data seq k (any or a specific retransmission), pure acks), random fair loss/"
+                "duplication/jitter per direction, and a window family (8 MB past a pausing reader); crossed with write patterns, MTU per "
+                "side, traffic patterns, 1-4 sessions; non-trivial = bytes compared and at least one fault actually hit a datagram; "
+                "distinct = hash of (family, sessions, MTUs, pattern classes, first rule hits in hub order)",
+        "technique": "runtime monitor: stream equality at both application ends + bounded-progress oracle in virtual time, under enumerated "
+                     "and random fair fault plans applied by a simulated datagram hub that decodes every datagram with the reference codec",
+        "text": "Safety (read bytes are a prefix of written bytes, equality at completion) is checked on every execution; liveness is decided "
+                "only in its bounded form (completion, no error, no 120-virtual-second stall) under plans that obey explicit fairness budgets.",
+        "note": "trusted: simnet hub, reference codec used to classify datagrams, faketime runtime; fairness budgets: <=5 drops per "
+                "sequence-bearing segment, <=5 consecutive pure acks per flow",
+        "design_ref": "DESIGN.md section 4, C02",
+        "min_obs": {"bytes_compared": 100000, "datagrams_dropped": 10, "retransmissions": 10},
+        "timeout": {"quick": 1200, "thorough": 14000},
+    },
+    "C03": {
+        "scenarios": [("C03-close", "vsim")],
+        "rule": "closer (client or server) writes a generated size sequence and closes after 0..2 s; peer reads to the end; TCP: "
+                "chunk schedule x bounded pipe x slow reader; UDP: positional faults on the datagrams in flight at close time (drop/"
+                "delay of one of the last data segments, of a middle segment so that the close overtakes it, drop/delay/duplicate of "
+                "the close request) or random loss; the Read-before-wait hook parks the reader 0/2/5 virtual ms; non-trivial = the "
+                "peer observed EOF or an error; distinct = hash of (transport, closer, fault class, rule hits, write shape, outcome)",
+        "technique": "runtime monitor: 'EOF implies everything written was read' oracle at the application boundary, enumerated faults at "
+                     "close time on a simulated network in virtual time, hook-point parking of the reader",
+        "text": "Every execution in which the peer sees io.EOF is checked for having read all successfully written bytes; an error "
+                "instead of EOF is accepted. Fault positions around the close are enumerated by packet kind and sequence number.",
+        "note": "trusted: simnet, reference codec classification of datagrams, faketime runtime; hook point 1 only widens an existing window",
+        "design_ref": "DESIGN.md section 4, C03",
+        "min_obs": {"clean_eof": 20, "bytes_read": 100000},
+        "timeout": {"quick": 1200, "thorough": 14000},
+    },
 }
